@@ -40,6 +40,8 @@ def run(ctx):
     c20.r202(ctx)
     c20.r206(ctx)
     c20.r201b(ctx)
+    from . import findings2 as _f2
+    _f2.index_levels(ctx, 'R6.10')
     from . import c13 as _c13
     _c13.r134(ctx, api)
     from . import c01
